@@ -44,12 +44,12 @@ def plan(tier, seed):
     q = tier == "quick"
     specs = []
     for _ in range(3 if q else 8):
-        specs.append({"kind": "args", "count": 400 if q else 4000})
+        specs.append({"kind": "args", "count": 1000 if q else 10000})
     specs.append({"kind": "inplace", "count": 50 if q else 600})
-    for i in range(2 if q else 10):
+    for i in range(4 if q else 16):
         specs.append({"kind": "history", "pool_seed": seed * 31 + i, "calls": 400 if q else 2000})
     for T in ([4, 8] if q else [2, 4, 8, 16]):
-        specs.append({"kind": "threads", "threads": T, "pool_seed": seed * 31 + 100 + T, "calls": 250 if q else 1200})
+        specs.append({"kind": "threads", "threads": T, "pool_seed": seed * 31 + 100 + T, "calls": 500 if q else 2500})
     cfgs = [c for c in CONFIGS if c["name"] in ("default", "hashseed4242", "LC_ALL=C", "-I", "stdout-ascii", "pre-reverse-order",
                                                 "pre-hashes-backends", "cwd=nonascii", "stdout-utf16")] if q else CONFIGS
     for c in cfgs:
